@@ -30,6 +30,14 @@ pub struct Profile {
     pub timeout_s: fn(Tier) -> u64,
 }
 
+/// Additional integer counters that a profile's oracles (`post`, `post_gc_hook`) want in the
+/// evidence; `child` adds them to its result (summed over the children by the parent).
+pub static EXTRA_COUNTERS: std::sync::Mutex<std::collections::BTreeMap<String, u64>> = std::sync::Mutex::new(std::collections::BTreeMap::new());
+
+pub fn count(key: &str, n: u64) {
+    *EXTRA_COUNTERS.lock().unwrap_or_else(|p| p.into_inner()).entry(key.to_string()).or_insert(0) += n;
+}
+
 /// A stable name for a panic: source file name + the first words of the message (numbers and
 /// addresses dropped), e.g. `helper.rs:vo_bit_not_set`.  Line numbers are deliberately left out.
 pub fn panic_slug(text: &str) -> String {
@@ -228,6 +236,9 @@ pub fn child(profile: &Profile, args: &[String]) -> ! {
     sub.add("objects_moved", w.stats.objects_moved);
     sub.add("objects_verified", w.stats.objects_verified);
     sub.add("collections_with_live_and_dead", w.stats.gcs_with_live_and_dead);
+    for (k, v) in EXTRA_COUNTERS.lock().unwrap_or_else(|p| p.into_inner()).iter() {
+        sub.add(k, *v);
+    }
     sub.set("max_depth", depth as u64);
     sub.set("exhaustive", !stopped);
     sub.set("per_plan", json!({label: {"programs": evaluated, "depth": depth, "collections": w.stats.gcs, "objects_moved": w.stats.objects_moved, "nontrivial": nontrivial}}));
